@@ -248,10 +248,10 @@ func ruleC10Root(p *Prog, a *Anchors, r *Report) {
 	}
 	// builder: result #0 on success paths = phi over {receiver, load(parent) of itself}, exit condition parent == nil
 	for _, ret := range returnsOf(builder) {
-		if len(ret.Results) < 3 || !isNilConst(ret.Results[2]) && !mayBeNilValue(ret.Results[2], 0) {
+		if len(ret.Results) < 3 || !isNilConst(res(ret, 2)) && !mayBeNilValue(res(ret, 2), 0) {
 			continue
 		}
-		v := ret.Results[0]
+		v := res(ret, 0)
 		key := p.FuncName(builder) + ":selects-root"
 		phi, ok := v.(*ssa.Phi)
 		if !ok {
